@@ -370,15 +370,25 @@ structure G09 where
   sel : Option Nat := none
 deriving Repr, Inhabited
 
+/-- A record slot does not contradict the artifact of `n`: it names another number or validates. -/
+def slotOk (env : Env) (key : Option String) (v : View) (n : Nat) : Option Meta → Bool
+  | some m => m.number != n || v.valid env key m
+  | none => true
+
+/-- Every record numbered `n` (selection, last good, booting) validates against `n`'s artifact. -/
+def View.slotsValid (env : Env) (key : Option String) (v : View) (n : Nat) : Bool :=
+  slotOk env key v n v.ps.next && slotOk env key v n v.ps.last && slotOk env key v n v.ps.booting
+
 def G09.next (env : Env) (g : G09) (op : Op) (pre post : View) : G09 :=
   let cfg := trackCfg g.cfg op
   match installedBy op post with
   | some n =>
-    -- An install whose signature does not verify under the configured key is not covered: C07 says
-    -- such a patch is never handed out and falls back like any other invalid patch.
-    (match post.ps.next with
-    | some m => if m.number = n ∧ post.valid env (g.cfg.bind (·.key)) m then { cfg := cfg, sel := some n } else { cfg := cfg, sel := none }
-    | none => { cfg := cfg, sel := some n })
+    -- The guarantee is claimed for installs after which every record of number n matches the
+    -- artifact now on disk. Not covered: a signature that does not verify under the configured key
+    -- (C07: such a patch is never handed out), and a server that re-issues number n with different
+    -- bytes while an older record of n is still the last good / booting patch.
+    if post.nextNum = some n ∧ post.slotsValid env (g.cfg.bind (·.key)) n then { cfg := cfg, sel := some n }
+    else { cfg := cfg, sel := none }
   | none =>
     match g.sel with
     | none => { cfg := cfg, sel := none }
@@ -387,18 +397,26 @@ def G09.next (env : Env) (g : G09) (op : Op) (pre post : View) : G09 :=
          || failedBy g.cfg op pre = some n || (rolledBackBy g.cfg op).contains n
       then { cfg := cfg, sel := none } else { cfg := cfg, sel := some n }
 
+/-- What a query must answer while `n` is the installed selection. -/
+def queryReports (op : Op) (post : View) (n : Nat) : Bool :=
+  match op with
+  | .nextN => post.ret = .num n
+  | .nextP => post.ret = .path (some n)
+  | _ => true
+
 def mon09 : Monitor G09 where
   init := {}
   next env g op pre post := g.next env op pre post
   checks env g op pre post :=
-    match (g.next env op pre post).sel with
+    (match installedBy op post with
+      | some n => [(post.nextNum = some n, s!"C09: update reported patch {n} installed but next={optNat post.nextNum}")]
+      | none => []) ++
+    (match (g.next env op pre post).sel with
     | none => []
     | some n =>
       [ (post.nextNum = some n, s!"C09: installed patch {n} is no longer selected (next={optNat post.nextNum}) after {op.tag}"),
         ((post.fileOf n).isSome, s!"C09: artifact of installed and selected patch {n} is gone after {op.tag}"),
-        (match op with
-          | .nextN | .nextP => g.cfg.isNone || reportedNext op post = some n
-          | _ => true, s!"C09: query does not report installed patch {n}") ]
+        (g.cfg.isNone || queryReports op post n, s!"C09: query does not report installed patch {n}") ])
 
 /-! #### C10: a server rollback is honoured and sticks -/
 
